@@ -90,8 +90,8 @@ def randomised(cfg):
 # containers (C18) -- how one operation's data is delivered
 # --------------------------------------------------------------------------------------------------
 
-CONTAINERS = ("list", "ndarray", "ndarray_F", "ndarray_slice", "ndarray_T", "ndarray_float", "series_frame", "frame_F",
-              "series_auto")
+CONTAINERS = ("list", "ndarray", "ndarray_F", "ndarray_slice", "ndarray_T", "ndarray_float", "ndarray_f32", "series_frame",
+              "frame_F", "series_auto")
 
 
 def _vec(values, kind, is_reward):
@@ -123,6 +123,9 @@ def _mat(rows, kind):
         arr = arr.astype(float)
     if kind == "ndarray_F":
         return np.asfortranarray(arr)
+    if kind == "ndarray_f32":
+        # single precision contexts (the generated values - small integers and half-integers - are exact in float32)
+        return arr.astype(np.float32)
     if kind == "ndarray_T":
         return np.ascontiguousarray(arr.T).T      # transposed view of a C array (neither copy nor C-contiguous)
     if kind == "series_auto":
